@@ -39,11 +39,12 @@ func runC11(c *Ctx) {
 	c.checkRefreshProtocol("R5-no-resurrection", c.c12Anchors("R5-no-resurrection"))
 	runDomainOrderRule(c, "R6-stable-domain-order")
 	runTicketReuseRule(c, "R7-relogin-overwrites")
-	runC11R3R4(c, "R3-cookie-store-clear", "R4-same-name-opts")
+	runC11R3R4(c, "R3-cookie-store-clear", "R4-same-name-opts", true)
 }
 
 // runC11R3R4 holds the cookie-store sweep and setter/deleter agreement rules (also used by C18.R4).
-func runC11R3R4(c *Ctx, r3, r4 string) {
+func runC11R3R4(c *Ctx, r3, r4 string, withQueuedSweep ...bool) {
+	queuedRule := len(withQueuedSweep) > 0 && withQueuedSweep[0]
 	rule := r3
 	cclear := c.Fn(rule, "(*pkg/sessions/cookie.SessionStore).Clear")
 	setCookie := c.StdFunc(rule, "net/http.SetCookie")
@@ -84,7 +85,7 @@ func runC11R3R4(c *Ctx, r3, r4 string) {
 				c.bad(rule, "split-format|"+fnKey(splitName), splitName.Blocks[0].Instrs[0], "split cookie parts are no longer named <name>_<number>: the clearing pattern does not cover them", nil, 0)
 			}
 			// sweep: for a matching presented cookie a deletion under its presented name is set
-			swept := false
+			swept, queuedSwept := false, false
 			c.Walk(rule, cclear, func(p *walk.Path) {
 				for _, ms := range p.Calls() {
 					sc := ms.C.StaticCallee()
@@ -97,6 +98,50 @@ func runC11R3R4(c *Ctx, r3, r4 string) {
 					key := "sweep|" + fnKey(cclear)
 					// matched cookie: element of req.Cookies()
 					elem := elementOfCookies(p, p.Arg(ms, 1), cookieNameF)
+					if src := cookiesCallOf(elem); src != nil && src.Call.StaticCallee() != nil && src.Call.StaticCallee().String() == "(*net/http.Response).Cookies" {
+						// second sweep: cookies this response has already set (a save earlier on the same response)
+						qkey := "queued-sweep|" + fnKey(cclear)
+						if !queuedRule {
+							continue // decided under C10.R6 / C11.R3
+						}
+						if !responseOfWriter(src.Call.Args[0], cclear.Params[1]) {
+							c.bad(rule, qkey, ms.In, "the response whose queued cookies are swept is not built from this writer's Header()", p, p.End())
+							continue
+						}
+						presented := false
+						for _, rc := range p.Calls() {
+							if rc.Idx > ms.Idx && rc.C.StaticCallee() != nil && rc.C.StaticCallee().String() == "(*net/http.Request).Cookie" && elementOfCookies(p, p.Arg(rc, 1), cookieNameF) == elem {
+								if isNil, k := p.ResultNil(rc.DV(), 1, p.End()); k && isNil {
+									presented = true // the request presented it: the first sweep expired it
+								}
+							}
+						}
+						if presented {
+							continue
+						}
+						found := false
+						for _, sc2 := range p.Calls() {
+							if sc2.Idx < ms.Idx || sc2.C.StaticCallee() != setCookie {
+								continue
+							}
+							mk, ok := extractOfCall(p, p.Arg(sc2, 1), 0)
+							if !ok || mk.C.StaticCallee() != makeCookie {
+								continue
+							}
+							val, _ := ConstString(p.Resolve(p.Arg(mk, 2)).V)
+							exp, expOK := ConstInt(p.Resolve(p.Arg(mk, 4)).V)
+							if elementOfCookies(p, p.Arg(mk, 1), cookieNameF) == elem && val == "" && expOK && exp < 0 {
+								found = true
+							}
+						}
+						if found {
+							queuedSwept = true
+							c.ok(rule, qkey, ms.In, "a session cookie already set on this response and not presented by the request is expired too")
+						} else {
+							c.bad(rule, qkey, ms.In, "a session cookie already set on this response matches the pattern but is not expired on this path", p, p.End())
+						}
+						continue
+					}
 					if elem == nil {
 						c.bad(rule, key, ms.In, "the name matched against the pattern is not the name of an element of req.Cookies()", p, p.End())
 						continue
@@ -127,6 +172,9 @@ func runC11R3R4(c *Ctx, r3, r4 string) {
 			})
 			if !swept {
 				c.bad(rule, "sweep|"+fnKey(cclear), pattern, "no path of Clear deletes a matching presented cookie", nil, 0)
+			}
+			if queuedRule && !queuedSwept {
+				c.bad(rule, "queued-sweep|"+fnKey(cclear), pattern, "Clear expires only the cookie names the request presented: session cookies set earlier on the same response under other names (a refresh performed by the request that signs out, when the refreshed session splits differently) are all that is left in the browser afterwards, and they load", nil, 0)
 			}
 		}
 	}
@@ -569,4 +617,42 @@ func findPatternCall(c *Ctx, fn *ssa.Function, depth int) *ssa.Call {
 		}
 	}
 	return nil
+}
+
+// cookiesCallOf: the Cookies() call an element value (as returned by elementOfCookies) was taken from.
+func cookiesCallOf(el ssa.Value) *ssa.Call {
+	u, ok := el.(*ssa.UnOp)
+	if !ok {
+		return nil
+	}
+	ia, ok := u.X.(*ssa.IndexAddr)
+	if !ok {
+		return nil
+	}
+	call, _ := ia.X.(*ssa.Call)
+	return call
+}
+
+// responseOfWriter: v is &http.Response{Header: rw.Header()} for the given writer parameter.
+func responseOfWriter(v ssa.Value, rw ssa.Value) bool {
+	al, ok := unwrap0(v).(*ssa.Alloc)
+	if !ok || al.Referrers() == nil {
+		return false
+	}
+	for _, r := range *al.Referrers() {
+		fa, ok := r.(*ssa.FieldAddr)
+		if !ok || walk.FieldOf(fa.X.Type(), fa.Field).Name() != "Header" || fa.Referrers() == nil {
+			continue
+		}
+		for _, r2 := range *fa.Referrers() {
+			st, ok := r2.(*ssa.Store)
+			if !ok || st.Addr != ssa.Value(fa) {
+				continue
+			}
+			if call, ok := unwrap0(st.Val).(*ssa.Call); ok && call.Call.IsInvoke() && call.Call.Method.Name() == "Header" && call.Call.Value == rw {
+				return true
+			}
+		}
+	}
+	return false
 }
